@@ -257,8 +257,9 @@ def families(tier, seed):
 def main():
     chk = Check("C15", "exploration")
     replace_exhaustive(chk)
-    driver.run_family(
-        chk, "frontends-and-edits", families(chk.tier, chk.seed), dispatch, site="C15/frontends",
+    _cases = families(chk.tier, chk.seed)
+    _results = driver.run_family(
+        chk, "frontends-and-edits", _cases, dispatch, site="C15/frontends",
         rule="models (operator chains, parallel edges, multi-input operators, fan-in, hierarchy 1-2, identifier sets r/rr, m_in2/a, "
              "edge templates, gamma-kernel edges) defined through YAML text (x' notation and ^), through the Python classes + to_yaml + "
              "from_yaml, and YAML + to_yaml + from_yaml: C01 clauses against the spec; derived operators through `base:` and through "
@@ -266,6 +267,8 @@ def main():
              "equations against the token-based edit; the same derived template through three path spellings; a hierarchy with "
              "equally named, different sub-circuits; distinct = (scenario, route, vectorize)",
         sample_of=lambda c: {k: v for k, v in c.items() if k not in ("features",)})
+    driver.run_sequences(chk, "frontends-and-edits-in-sequence", _cases, _results, dispatch, site="C15/frontends",
+                         limit=20 if chk.tier == "quick" else 120, seed=chk.seed)
     rc = chk.finish(
         explanation="Bounded: frontend equivalence on enumerated models and edit dictionaries; parser.replace bounded-exhaustively "
                     "against the token-based spec (strings defeat the installed solvers on the replace loop, see DESIGN.md).",
